@@ -207,17 +207,14 @@ static int json_object_array_move_cb(struct json_object *parent, size_t idx,
                                      struct json_object *value, void *priv)
 {
 	int rc;
-	struct json_pointer_get_result *from = priv;
 	size_t len = json_object_array_length(parent);
 
 	/**
-	 * If it's the same array parent, it means that we removed
-	 * and element from it, so the length is temporarily reduced
-	 * by 1, which means that if we try to move an element to
-	 * the last position, we need to check the current length + 1
+	 * A move is a remove followed by an add (RFC 6902 section 4.4): the
+	 * element has been removed already, also when it came from this
+	 * very array, so the last position it can go to is the current length.
 	 */
-	if (parent == from->parent)
-		len++;
+	(void)priv;
 
 	if (idx > len)
 	{
